@@ -277,6 +277,32 @@ def run(rep, info, model, tier, seed):
                    rule="exhaustive: server-step sequences up to depth %d over {handshake variants, text, ping, pong, close, reserved opcode, bad utf-8, half frame, silence, EOF, recv error, recv exception, selector exception} x application reaction {nothing, send_text, close} at one event (depth 4: a reduced grid of reactions); connect and request-write failures; plus %d random longer histories with timers; monitor automaton on the real event names; the full trace (events, writes, waits) is compared with the model" % (depth, nlong))
     rep.exhaustive["server-step sequences up to depth %d" % depth] = True
     reconnect_family(rep, rnd, 60 if tier == "quick" else 600)
+    # application handlers that take time, under a selector that sleeps exactly as long as the loop asks it to (a negative
+    # timeout or None: until something arrives): with a timeout armed and a silent server the iteration must still end
+    slow = []
+    for kind in ("ping-timeout", "close-at-ready", "close-later", "echoed-server-close"):
+        for at in (2, 3, 4, 5):
+            for nap in (1, 5119, 5121, 6000, 12000, 40000):
+                steps = [("data", 100, scen.HANDSHAKE)]
+                app = {}
+                cfgkw = dict(ping_timeout=None, close_timeout=10 * 1024, ping_rate=0)
+                if kind == "close-at-ready":
+                    app = {2: list(APP["close"])}
+                elif kind == "close-later":
+                    steps.append(("data", 100, E(1, b"hi")))
+                    app = {3: list(APP["close"])}
+                elif kind == "ping-timeout":
+                    cfgkw = dict(ping_timeout=10 * 1024, close_timeout=None, ping_rate=rnd.choice([0, 30 * 1024]))
+                else:
+                    steps.append(("data", 100, E(8, ref6455.close_payload(1000, b""))))
+                app[at] = list(app.get(at, ())) + [("sleep", nap)]
+                sc = dict(cfg=simnet.default_cfg(**cfgkw), steps=steps, app=app, keys=[b"\x0a\x0b\x0c\x0d"] * 12, key16=scen.KEY16,
+                          honest=True, horizon=100 + nap + 12 * 5120 + 10 * 1024)
+                sc["_seq"] = ["hs", kind, "handler-sleeps", at, nap]
+                sc["_terminates"] = False
+                slow.append(sc)
+    fam.run_family(rep, None, "C07:slow-handlers", slow, oracle, project=lambda t: t,
+                   rule="a timeout is armed (ping timeout; the client's Close unanswered; the echo of a server Close unanswered), the server stays silent, and the application's handler of one event takes 1 tick .. 40 s of virtual time; the selector sleeps exactly as long as it is asked to (never returns for a negative timeout): the iteration must end once the timeout is overdue by more than a poll interval (no model: it knows no handlers that take time)")
     if not proof_ok and not rep.violations:
         rep.broken("proof obligation props/C07.v no longer checks: %s" % (rep.coq_failure,))
 
@@ -301,4 +327,4 @@ def replay(body):
         print("events of the second connection:", [NAMES.get(c) for c in codes], "escaped:", r.escaped)
         print("REPLAY:", "VIOLATION reproduced: %s" % m if (m or r.escaped) else "property holds on this input")
         return 1 if (m or r.escaped) else 0
-    return fam.replay_generic(body, {"C07:server-steps-x-app-reactions": oracle}, show=80)
+    return fam.replay_generic(body, {"C07:server-steps-x-app-reactions": oracle, "C07:slow-handlers": oracle}, show=80)
